@@ -133,6 +133,8 @@ class ExprMixin:
         _unsup('constant %r' % (value,), node)
 
     def norm_index(self, i, n):
+        if self.specmode:
+            return i          # specifications index from the front only (no negative indices): keeps triggers free of ite
         return z3.simplify(z3.If(i < 0, n + i, i))
 
     def seq_of(self, v, st):
@@ -715,13 +717,19 @@ class ExprMixin:
         sides = s2.pc[n0:]
         # side facts that do not mention the bound variables (typing of the objects the body reads) are hoisted out of the quantifier
         bound = {v.get_id() for v in vars_all}
-        inner = []
+        inner, typing = [], []
+        tids = getattr(self, '_typing_ids', set())
         for f in sides:
             if _mentions(f, bound):
-                inner.append(f)
+                (typing if f.get_id() in tids else inner).append(f)
             else:
                 st.assume(f)
+        if typing:
+            # heap typing invariant (elements of a typed container are null or live objects of the element class): holds for every
+            # index, so it is an assumption of its own rather than a guard that would have to be re-proved to use the fact
+            st.assume(z3.ForAll(vars_all, z3.simplify(z3.Implies(z3.And(*guards), z3.And(*typing)))))
         guard = z3.And(*guards, *inner)
+        # normalise select-over-store inside the body so that triggers are the terms the ground facts contain
         if universal:
-            return z3.ForAll(vars_all, z3.Implies(guard, body), patterns=pats)
-        return z3.Exists(vars_all, z3.And(guard, body), patterns=pats)
+            return z3.ForAll(vars_all, z3.simplify(z3.Implies(guard, body)), patterns=pats)
+        return z3.Exists(vars_all, z3.simplify(z3.And(guard, body)), patterns=pats)
